@@ -9,18 +9,8 @@ theorem slice_inplace_eq (a : Annotation) (s e : Int) : sliceInplace a s e = sli
   · split <;> split <;> simp_all
 
 theorem slice_residues (a : Annotation) (s e : Nat) (hs : s ≤ e) (he : e ≤ a.seq.length) :
-    residues (slice a s e) = ((residues a).drop s).take (e - s) := by
-  apply List.ext_getElem?
-  intro i
-  rw [residues_getElem?, slice_seq, pySlice_nat, List.getElem?_take, List.getElem?_take, List.getElem?_drop,
-    List.getElem?_drop, residues_getElem?]
-  have h1 : min s a.seq.length = s := by omega
-  have h2 : min e a.seq.length = e := by omega
-  rw [h1, h2]
-  by_cases hi : i < e - s
-  · simp only [hi, if_true]
-    rw [modsAt_slice a s e i (by omega)]
-  · simp [hi]
+    residues (slice a s e) = ((residues a).drop s).take (e - s) :=
+  residues_slice a s e hs he
 
 theorem reverse_residues (a : Annotation) (sw : Bool) : residues (reverse a sw) = (residues a).reverse := by
   apply List.ext_getElem?
@@ -195,5 +185,182 @@ theorem shift_multiple_partial (a : Annotation) (k : Int) (hn : a.seq ≠ []) (h
 theorem shift_length_partial (a : Annotation) (hn : a.seq ≠ []) (hk : KeysOK a)
     (hint : a.internal ≠ some []) (hiv : a.intervals = none) : shift a a.seq.length = .ok a :=
   shift_multiple_partial a _ hn hk hint hiv Int.emod_self
+
+
+
+/-- shuffle: the residue at new position `i` is the residue `perm[i]` of the input with its own modifications; the result
+is a permutation of the modified residues; global, terminal and interval annotations are untouched -/
+theorem shuffle_residues (a : Annotation) (perm : List Nat) (hn : a.seq ≠ [])
+    (hp : perm.Perm (List.range a.seq.length)) (hk : KeysOK a) :
+    ∃ b, shuffle a perm = .ok b ∧ residues b = perm.filterMap ((residues a)[·]?) ∧
+      (residues b).Perm (residues a) ∧
+      b.isotope = a.isotope ∧ b.static = a.static ∧ b.labile = a.labile ∧ b.unknown = a.unknown ∧
+      b.charge = a.charge ∧ b.adducts = a.adducts ∧ b.nterm = a.nterm ∧ b.cterm = a.cterm ∧
+      b.intervals = a.intervals := by
+  obtain ⟨b, hb, hseq, hm, g⟩ := permuteWith_spec a perm (perm.filterMap (a.seq[·]?)) hp hk
+  have hne : a.seq.isEmpty = false := by cases h : a.seq <;> simp_all
+  refine ⟨b, by simp [shuffle, hne, hb], ?_, ?_, g⟩
+  · exact residues_of_permuted a b perm hp hseq hm
+  · rw [residues_of_permuted a b perm hp hseq hm]
+    exact filterMap_getElem?_perm _ perm (by rw [residues_length]; exact hp)
+
+/-- sort_residues: a permutation of the modified residues, sorted by residue letter, everything else untouched -/
+theorem sort_residues (a : Annotation) (hk : KeysOK a) :
+    ∃ b, sortResidues a = .ok b ∧ residues b = (sortOrder a.seq).filterMap ((residues a)[·]?) ∧
+      (residues b).Perm (residues a) ∧
+      ((residues b).map (·.1)).Pairwise (fun c d => c.toNat ≤ d.toNat) ∧
+      b.isotope = a.isotope ∧ b.static = a.static ∧ b.labile = a.labile ∧ b.unknown = a.unknown ∧
+      b.charge = a.charge ∧ b.adducts = a.adducts ∧ b.nterm = a.nterm ∧ b.cterm = a.cterm ∧
+      b.intervals = a.intervals := by
+  have hp := sortOrder_perm a.seq
+  obtain ⟨b, hb, hseq, hm, g⟩ := permuteWith_spec a (sortOrder a.seq) (sortBy (fun (c : Char) => c.toNat) a.seq) hp hk
+  have hseq' : b.seq = (sortOrder a.seq).filterMap (a.seq[·]?) := by rw [hseq, sortBy_seq_eq]
+  refine ⟨b, hb, residues_of_permuted a b _ hp hseq' hm, ?_, ?_, g⟩
+  · rw [residues_of_permuted a b _ hp hseq' hm]
+    exact filterMap_getElem?_perm _ _ (by rw [residues_length]; exact hp)
+  · have : (residues b).map (·.1) = b.seq := by
+      simp [residues, List.map_map, Function.comp_def]
+    rw [this, hseq]
+    exact sortBy_sorted _ _
+
+
+
+theorem reverse_globals_terminals (a : Annotation) (sw : Bool) :
+    (reverse a sw).isotope = a.isotope ∧ (reverse a sw).static = a.static ∧ (reverse a sw).labile = a.labile ∧
+    (reverse a sw).unknown = a.unknown ∧ (reverse a sw).charge = a.charge ∧ (reverse a sw).adducts = a.adducts ∧
+    (reverse a sw).nterm = (if sw then a.cterm else a.nterm) ∧
+    (reverse a sw).cterm = (if sw then a.nterm else a.cterm) := by
+  simp [reverse]
+
+theorem reverse_intervals (a : Annotation) (sw : Bool) :
+    (reverse a sw).intervals = a.intervals.map fun l => l.reverse.map (reverseInterval a.seq.length) := rfl
+
+/-- a reversed interval keeps its modifications and its flag and covers exactly the mirrored residues -/
+theorem reverseInterval_cover (n : Int) (iv : Interval) (h : iv.start ≤ iv.stop) :
+    (reverseInterval n iv).mods = iv.mods ∧ (reverseInterval n iv).ambiguous = iv.ambiguous ∧
+    ∀ i : Int, covers (reverseInterval n iv) i ↔ covers iv (n - 1 - i) := by
+  unfold reverseInterval covers
+  have h1 : ¬ (n - iv.stop > n - iv.start) := by omega
+  simp only [h1, if_false]
+  refine ⟨trivial, trivial, ?_⟩
+  intro i
+  constructor <;> intro ⟨h2, h3⟩ <;> constructor <;> omega
+
+def shiftWitness : Annotation :=
+  { seq := ['P', 'E', 'P', 'T', 'I', 'D', 'E'], intervals := some [⟨5, 7, false, some [⟨.int 1, 1⟩]⟩] }
+
+/-- the un-restricted identities are FALSE on the current code when intervals are present (KF-C11-shift-intervals):
+`PEPTI(DE)[1]` shifted by 0 or by its length 7 is `(PEPTI)[1]DE` -/
+theorem shift_identity_full_false_on_current_code :
+    (shift shiftWitness 0).toOption ≠ some shiftWitness ∧ (shift shiftWitness 7).toOption ≠ some shiftWitness ∧
+    (shift shiftWitness 0).toOption.map (·.intervals) = some (some [⟨0, 5, false, some [⟨.int 1, 1⟩]⟩]) := by
+  decide
+
+
+theorem split_concat (a : Annotation) : (split a).flatMap residues = residues a := by
+  unfold split
+  rw [List.flatMap_map]
+  have key : ∀ i ∈ List.range a.seq.length,
+      residues (if i = 0 ∧ truthy a.labile = true then
+        { slice { a with labile := none } (i : Int) ((i : Int) + 1) with labile := a.labile }
+        else slice { a with labile := none } (i : Int) ((i : Int) + 1)) = ((residues a).drop i).take 1 := by
+    intro i hi
+    have hi' : i < a.seq.length := by simpa using hi
+    have h := residues_slice { a with labile := none } i (i + 1) (by omega) (by simp only []; omega)
+    have hr : residues { a with labile := none } = residues a := residues_congr _ _ rfl rfl
+    rw [hr] at h
+    have hcast : ((i : Int) + 1) = ((i + 1 : Nat) : Int) := by omega
+    rw [hcast]
+    split
+    · refine (residues_congr _ (slice { a with labile := none } (i : Int) ((i + 1 : Nat) : Int)) rfl rfl).trans ?_
+      rw [h]; congr 1; omega
+    · rw [h]; congr 1; omega
+  refine (flatMap_congr' key).trans ?_
+  rw [← residues_length a, range_flatMap_drop_take]
+
+theorem split_getElem? (a : Annotation) (i : Nat) (hi : i < a.seq.length) :
+    ∃ p, (split a)[i]? = some p ∧
+      p.nterm = (if i = 0 then a.nterm else none) ∧
+      p.cterm = (if i + 1 = a.seq.length then a.cterm else none) ∧
+      p.labile = (if i = 0 ∧ truthy a.labile then a.labile else none) ∧
+      p.isotope = a.isotope ∧ p.static = a.static := by
+  have F := slice_fields { a with labile := none } (i : Int) ((i : Int) + 1)
+  have f1 : (slice { a with labile := none } (i : Int) ((i : Int) + 1)).nterm =
+      if (i : Int) > 0 then none else a.nterm := F.1
+  have f2 : (slice { a with labile := none } (i : Int) ((i : Int) + 1)).cterm =
+      if (i : Int) + 1 < (a.seq.length : Int) then none else a.cterm := F.2.1
+  have f3 : (slice { a with labile := none } (i : Int) ((i : Int) + 1)).isotope = a.isotope := F.2.2.1
+  have f4 : (slice { a with labile := none } (i : Int) ((i : Int) + 1)).static = a.static := F.2.2.2.1
+  have f5 : (slice { a with labile := none } (i : Int) ((i : Int) + 1)).labile = none := F.2.2.2.2.1
+  have e1 : (if (i : Int) > 0 then none else a.nterm) = (if i = 0 then a.nterm else none) := by
+    split <;> split <;> first | rfl | omega
+  have e2 : (if (i : Int) + 1 < (a.seq.length : Int) then none else a.cterm) =
+      (if i + 1 = a.seq.length then a.cterm else none) := by
+    split <;> split <;> first | rfl | omega
+  rw [e1] at f1
+  rw [e2] at f2
+  unfold split
+  rw [List.getElem?_map, List.getElem?_range hi]
+  simp only [Option.map_some]
+  generalize slice { a with labile := none } (i : Int) ((i : Int) + 1) = s at *
+  by_cases h : i = 0 ∧ truthy a.labile = true
+  · rw [if_pos h]
+    exact ⟨_, rfl, f1, f2, by simp [h], f3, f4⟩
+  · rw [if_neg h]
+    exact ⟨_, rfl, f1, f2, by rw [f5]; simp [h], f3, f4⟩
+
+theorem slice_slice (a : Annotation) (i j k l : Nat) (hij : i ≤ j) (hj : j ≤ a.seq.length) (hkl : k ≤ l)
+    (hl : l ≤ j - i) (hl0 : 0 < l ∨ a.intervals = none) :
+    slice (slice a (i : Int) (j : Int)) (k : Int) (l : Int) = slice a ((i + k : Nat) : Int) ((i + l : Nat) : Int) := by
+  rw [slice_eq_general a, slice_eq_general, slice_eq_general]
+  unfold sliceGeneral
+  apply Annotation.ext'
+  · exact pySlice_pySlice_nat a.seq i j k l hij hj hkl hl
+  · rfl
+  · rfl
+  · rfl
+  · rfl
+  · show (if (k : Int) > 0 then none else (if (i : Int) > 0 then none else a.nterm)) =
+      (if ((i + k : Nat) : Int) > 0 then none else a.nterm)
+    split <;> split <;> first | rfl | (split <;> first | rfl | omega) | omega
+  · show (if (l : Int) < ((pySlice a.seq (i : Int) (j : Int)).length : Int) then none
+        else (if (j : Int) < (a.seq.length : Int) then none else a.cterm)) =
+      (if ((i + l : Nat) : Int) < (a.seq.length : Int) then none else a.cterm)
+    rw [pySlice_length_nat a.seq i j hij hj]
+    split <;> split <;> first | rfl | (split <;> first | rfl | omega) | omega
+  · show (a.internal.map (·.filterMap (sliceEntry i j))).map (·.filterMap (sliceEntry k l)) =
+      a.internal.map (·.filterMap (sliceEntry ((i + k : Nat) : Int) ((i + l : Nat) : Int)))
+    cases a.internal with
+    | none => rfl
+    | some d =>
+      simp only [Option.map_some, List.filterMap_filterMap]
+      congr 2
+      funext p
+      have := sliceEntry_bind (i : Int) (j : Int) (k : Int) (l : Int) (by omega) (by omega) p
+      rw [this]; congr 1 <;> omega
+  · show noneIfEmpty ((noneIfEmpty (a.intervals.map (·.filterMap (sliceInterval i j)))).map
+        (·.filterMap (sliceInterval k l))) =
+      noneIfEmpty (a.intervals.map (·.filterMap (sliceInterval ((i + k : Nat) : Int) ((i + l : Nat) : Int))))
+    cases hI : a.intervals with
+    | none => rfl
+    | some L =>
+      have hl0' : 0 < l := by
+        rcases hl0 with h | h
+        · exact h
+        · rw [hI] at h; cases h
+      have hcomp : L.filterMap (sliceInterval ((i + k : Nat) : Int) ((i + l : Nat) : Int)) =
+          (L.filterMap (sliceInterval i j)).filterMap (sliceInterval k l) := by
+        rw [List.filterMap_filterMap]
+        congr 1
+        funext iv
+        have := sliceInterval_bind (i : Int) (j : Int) (k : Int) (l : Int) (by omega) (by omega) (by omega) iv
+        rw [this]; congr 1 <;> omega
+      simp only [Option.map_some]
+      rw [hcomp]
+      cases L.filterMap (sliceInterval i j) with
+      | nil => rfl
+      | cons x xs => rfl
+  · rfl
+  · rfl
 
 end Pept.Reorder.C11
